@@ -69,7 +69,7 @@ PROPS = {
     "C08": S(
         [o.opc2_target_decoder, o.opc3_prologue, o.opc3b_fillers, o.line1, o.fall1, version.ver1_opcodes, o.opc5_version_coverage],
         explanation="Exhaustiveness of the `as`-target decoder against the compilers: the set of opnames with a (non-raising) case in describe_assignment_target is compared with every opname that the compiler of each supported interpreter "
-                    "emits in the store sequence of an always-rendered target (387 generated targets x 4 scopes x 4 interpreters, compile+dis only); with-prologue lengths and fillers per interpreter; "
+                    "emits in the store sequence of an always-rendered target (387 generated targets x 4 scopes x 4 interpreters, plus every always-rendered `as` target of every with statement of the 3.11 and 3.12 standard libraries, delimited by instruction source positions; compile+dis only); with-prologue lengths and fillers per interpreter (16 generated layouts plus every with statement of those standard libraries); "
                     "start_line is taken from the line tracking updated before the with-opcode test; the local-name fallback applies only when varname is None and obj is known, by identity.",
         decides=["OPC-2", "OPC-3", "OPC-3b", "LINE-1", "FALL-1", "VER-1"],
         not_decided=["the per-opcode semantics of the symbolic stack machine", "data-dependent skips", "the 'static leg' over the standard library (would run analyze_with_blocks: out of family)"],
